@@ -106,6 +106,12 @@ func (st *c09Stream) drain(ctx context.Context) {
 		}
 		st.delivered = append(st.delivered, evID(ev))
 		st.tokens = append(st.tokens, st.s.ResumeToken())
+		if len(st.delivered) > 20000 {
+			// a stream that never runs dry (it redelivers): stop reading, the
+			// comparison with the change log reports the surplus
+			st.done = true
+			return
+		}
 	}
 }
 
@@ -165,7 +171,7 @@ func c09LongTransaction(c *fw.Ctx) {
 		c.Count("long_transactions", 1)
 		kept := len(oplogEvents(engine.Catalog()))
 		var got []int32
-		for head.TryNext(ctx) {
+		for n := 0; n < 1000 && head.TryNext(ctx); n++ {
 			var ev bson.D
 			head.Decode(&ev)
 			id, _ := ref.GetPath(ev, "documentKey._id").(int32)
@@ -716,7 +722,7 @@ func c09BlockingRetention(c *fw.Ctx) {
 					go func() {
 						defer close(done)
 						ctl.Register(100, 5)
-						for s.Next(ctx) {
+						for n := 0; n < 100000 && s.Next(ctx); n++ {
 							parked.Store(false)
 							delivered.Add(1)
 						}
@@ -873,7 +879,7 @@ func c09ConcurrentRun(c *fw.Ctx, r *fw.Rand, k int) {
 			defer cg.Done()
 			defer cc.finished.Store(true)
 			ctl.Register(100+i, uint64(i)*7919+1)
-			for cc.st.s.Next(cctx) {
+			for n := 0; n < 200000 && cc.st.s.Next(cctx); n++ {
 				cc.parked.Store(false)
 				var ev bson.D
 				if cc.st.s.Decode(&ev) != nil {
